@@ -146,6 +146,29 @@ func (c *Ctx) NontrivialBytes(key []byte) {
 	c.w.distinct[h.Sum64()] = struct{}{}
 }
 
+// Emit records that this case maps key to val. Two cases (in any worker) that map one key
+// to different values are reported as a violation of class "injectivity" whose replay runs
+// both cases.
+func (c *Ctx) Emit(key [16]byte, val string) {
+	h := fnv.New64a()
+	h.Write([]byte(val))
+	v := h.Sum64()
+	w := c.w
+	if old, ok := w.emit[key]; ok {
+		if old.val != v {
+			w.res.VioCounts["injectivity"]++
+			if w.res.VioCounts["injectivity"] <= maxVioPerClass {
+				w.res.Violations = append(w.res.Violations, Violation{Property: w.Property, Harness: w.Harness, Tier: w.Tier,
+					Choices: append([]int{}, c.choices...), Choices2: decodeChoices(old.choices), Class: "injectivity",
+					Message: fmt.Sprintf("two different cases map to the same identifier %x; this one: %s", key, val)})
+			}
+			c.failed = true
+		}
+		return
+	}
+	w.emit[key] = emitRec{val: v, choices: encodeChoices(c.choices)}
+}
+
 // Sample offers a written-out case for the evidence (the first few are kept).
 func (c *Ctx) Sample(v any) {
 	if len(c.w.res.Samples) < 3 {
